@@ -5,12 +5,14 @@
 #
 #   struct Pair { 1: string a, 2: i32 b }
 #   exception Oops { 1: string why }
+#   exception Denied { 1: string why, 2: i32 code }
 #   service SimService {
 #     string echo(1: string s),
 #     void   poke(1: string s),
 #     Pair   swap(1: Pair p),
 #     string risky(1: string s) throws (1: Oops e),
 #     void   guard(1: string s) throws (1: Oops e),
+#     string multi(1: string s) throws (1: Oops e, 2: Denied d),
 #   }
 #
 from thrift.Thrift import TType, TMessageType, TApplicationException, TProcessor
@@ -54,8 +56,30 @@ Oops.thrift_spec = (
 )
 
 
+class Denied(TExceptionBase):
+    __slots__ = ('why', 'code')
+
+    def __init__(self, why=None, code=None):
+        self.why = why
+        self.code = code
+
+    def __str__(self):
+        return repr(self)
+
+
+all_structs.append(Denied)
+Denied.thrift_spec = (
+    None,
+    (1, TType.STRING, 'why', 'UTF8', None, ),
+    (2, TType.I32, 'code', None, None, ),
+)
+
+
 class Iface(object):
     def echo(self, s):
+        pass
+
+    def multi(self, s):
         pass
 
     def poke(self, s):
@@ -128,6 +152,18 @@ class Client(Iface):
         raise TApplicationException(TApplicationException.MISSING_RESULT, "risky failed: unknown result")
 
 
+    def multi(self, s):
+        self._send('multi', multi_args(s))
+        r = self._recv(multi_result())
+        if r.success is not None:
+            return r.success
+        if r.e is not None:
+            raise r.e
+        if r.d is not None:
+            raise r.d
+        raise TApplicationException(TApplicationException.MISSING_RESULT, "multi failed: unknown result")
+
+
 class Processor(Iface, TProcessor):
     def __init__(self, handler):
         self._handler = handler
@@ -137,6 +173,7 @@ class Processor(Iface, TProcessor):
         self._processMap["swap"] = Processor.process_swap
         self._processMap["risky"] = Processor.process_risky
         self._processMap["guard"] = Processor.process_guard
+        self._processMap["multi"] = Processor.process_multi
         self._on_message_begin = None
 
     def on_message_begin(self, func):
@@ -239,6 +276,30 @@ class Processor(Iface, TProcessor):
             msg_type = TMessageType.EXCEPTION
             result = TApplicationException(TApplicationException.INTERNAL_ERROR, 'Internal error')
         self._finish("risky", msg_type, result, seqid, oprot)
+
+    def process_multi(self, seqid, iprot, oprot):
+        args = multi_args()
+        args.read(iprot)
+        iprot.readMessageEnd()
+        result = multi_result()
+        try:
+            result.success = self._handler.multi(args.s)
+            msg_type = TMessageType.REPLY
+        except TTransport.TTransportException:
+            raise
+        except Oops as e:
+            msg_type = TMessageType.REPLY
+            result.e = e
+        except Denied as d:
+            msg_type = TMessageType.REPLY
+            result.d = d
+        except TApplicationException as ex:
+            msg_type = TMessageType.EXCEPTION
+            result = ex
+        except Exception:
+            msg_type = TMessageType.EXCEPTION
+            result = TApplicationException(TApplicationException.INTERNAL_ERROR, 'Internal error')
+        self._finish("multi", msg_type, result, seqid, oprot)
 
     def process_guard(self, seqid, iprot, oprot):
         args = guard_args()
@@ -398,6 +459,35 @@ all_structs.append(guard_result)
 guard_result.thrift_spec = (
     None,
     (1, TType.STRUCT, 'e', [Oops, None], None, ),
+)
+class multi_args(TBase):
+    __slots__ = ('s',)
+
+    def __init__(self, s=None):
+        self.s = s
+
+
+all_structs.append(multi_args)
+multi_args.thrift_spec = (
+    None,
+    (1, TType.STRING, 's', 'UTF8', None, ),
+)
+
+
+class multi_result(TBase):
+    __slots__ = ('success', 'e', 'd')
+
+    def __init__(self, success=None, e=None, d=None):
+        self.success = success
+        self.e = e
+        self.d = d
+
+
+all_structs.append(multi_result)
+multi_result.thrift_spec = (
+    (0, TType.STRING, 'success', 'UTF8', None, ),
+    (1, TType.STRUCT, 'e', [Oops, None], None, ),
+    (2, TType.STRUCT, 'd', [Denied, None], None, ),
 )
 fix_spec(all_structs)
 del all_structs
